@@ -4,8 +4,7 @@
     dealer state satisfying the invariant [dealer_wf] (Props/C03.v: it holds
     for [init_realm] and is preserved by every dealer function, so for every
     reachable state).  The statements are per dealer function (= per step of
-    the router); the only place where a final reply does not erase the call
-    record is shown at the end ([final_reply_consumes_call_refuted]).
+    the router).
     [reply_of m = Some (cid, fin)]: message [m] is a RESULT or an ERROR of type
     CALL for request [snd cid] sent to session [fst cid]; [fin]: it is final.
     Proofs: Router/DealerReply.v, DealerTimers.v, DealerRemove.v, DealerOwned.v,
@@ -35,14 +34,17 @@ Theorem reply_owned : forall lookup d,
                       fin = negb (opt_bool opts "progress") /\
                       (fin = true -> inv_inprogress inv = false ->
                        cget (d_calls (fst (sync_yield d callee req opts args kw))) cid = None)) /\
-    (* CALL: only refusals of the CALL being processed; a first chunk leaves nothing recorded *)
+    (* CALL: only refusals of the CALL being processed; every refusal leaves that call unrecorded
+       (a refused further chunk ends the pending call; a refused first chunk changes no call table) *)
     (forall cfg now caller req opts proc args kw oracle m,
         In m (call_out (call cfg lookup now d caller req opts proc args kw oracle)) ->
         forall cid fin, reply_of m = Some (cid, fin) ->
           cid = (s_id caller, req) /\ fin = true /\
           exists d', call cfg lookup now d caller req opts proc args kw oracle = CallRefused d' [m] /\
-                     d_calls d' = d_calls d /\ d_invs d' = d_invs d /\ d_bycall d' = d_bycall d /\
-                     (cget (d_bycall d) cid = None -> cget (d_calls d') cid = None)) /\
+                     cget (d_calls d') cid = None /\
+                     (forall k, cget (d_bycall d) cid = Some k -> gone d' cid k) /\
+                     (cget (d_bycall d) cid = None ->
+                      d_calls d' = d_calls d /\ d_invs d' = d_invs d /\ d_bycall d' = d_bycall d)) /\
     (forall cfg callee req opts proc m, In m (snd (fst (register cfg d callee req opts proc))) -> reply_of m = None) /\
     (forall sid req regid m, In m (snd (fst (unregister d sid req regid))) -> reply_of m = None).
 Proof. exact reply_owned_proof. Qed.
@@ -61,24 +63,52 @@ Qed.
 
 (** ** Prompt final replies, one per trigger *)
 
-(** nothing matches the procedure: no_such_procedure at once, nothing recorded *)
+(** nothing matches the procedure: no_such_procedure at once; for a first
+    chunk nothing was recorded and nothing changes, for a further chunk of a
+    pending progressive call that call is ended by this ERROR *)
 Theorem prompt_unroutable : forall cfg lookup now d caller req opts proc args kw oracle,
     dealer_wf lookup d ->
     no_exact d proc -> no_prefix d proc -> no_wildcard d proc ->
+    let cid := (s_id caller, req) in
+    let d' := no_proc_state d cid in
     call cfg lookup now d caller req opts proc args kw oracle =
-    CallRefused d [(s_id caller, RError c_CALL req [] e_no_such_procedure [] [])].
+    CallRefused d' [(s_id caller, RError c_CALL req [] e_no_such_procedure [] [])] /\
+    (cget (d_bycall d) cid = None -> d' = d) /\
+    (forall k, cget (d_bycall d) cid = Some k -> gone d' cid k) /\
+    cget (d_calls d') cid = None.
 Proof. exact prompt_unroutable_proof. Qed.
 Print Assumptions prompt_unroutable.
+
+(** every CALL answered no_such_procedure (also when the registration has no
+    callee) leaves nothing recorded for that request *)
+Theorem refused_chunk_ends_call : forall cfg lookup now d caller req opts proc args kw oracle d' o,
+    dealer_wf lookup d ->
+    call cfg lookup now d caller req opts proc args kw oracle = CallRefused d' o ->
+    In (s_id caller, RError c_CALL req [] e_no_such_procedure [] []) o ->
+    let cid := (s_id caller, req) in
+    o = [(s_id caller, RError c_CALL req [] e_no_such_procedure [] [])] /\
+    dealer_wf lookup d' /\
+    cget (d_calls d') cid = None /\ cget (d_bycall d') cid = None /\
+    (forall k, cget (d_bycall d) cid = Some k -> gone d' cid k) /\
+    (cget (d_bycall d) cid = None -> d' = d).
+Proof. exact refused_chunk_ends_call_proof. Qed.
+Print Assumptions refused_chunk_ends_call.
 
 Example prompt_unroutable_ex :
     no_exact d2s "net.other" /\ no_prefix d2s "net.other" /\ no_wildcard d2s "net.other" /\
     call cfg0 (lk 0 0) 5 d2s s10 7 [] "net.other" [] [] 0 =
-    CallRefused d2s [(10, RError c_CALL 7 [] e_no_such_procedure [] [])].
+    CallRefused d2s [(10, RError c_CALL 7 [] e_no_such_procedure [] [])] /\
+    (* a further chunk after the procedure was unregistered: the pending call (10,9) is ended *)
+    dealer_wf (lk 1 0) dp2 /\ cget (d_bycall dp2) (10, 9) = Some (11, 1) /\
+    call cfg0 (lk 1 0) 6 dp2 s10 9 [] "net.solo" [] [] 0 =
+    CallRefused dp3 [(10, RError c_CALL 9 [] e_no_such_procedure [] [])] /\
+    gone dp3 (10, 9) (11, 1) /\ sync_yield dp3 11 1 [] [vnat 42] [] = (dp3, []).
 Proof.
   assert (H : match_procedure d2s "net.other" 0 = None) by (vm_compute; reflexivity).
   apply (best_match_none (lk 0 0) d2s wf_d2s) in H. destruct H as (H1 & H2 & H3).
   split; [exact H1|]. split; [exact H2|]. split; [exact H3|].
-  apply prompt_unroutable with (lookup := lk 0 0); auto. exact wf_d2s.
+  split; [vm_compute; reflexivity|]. split; [exact wf_dp2|].
+  vm_compute. repeat split; reflexivity.
 Qed.
 
 (** the owner's final YIELD *)
@@ -194,18 +224,3 @@ Example junk_harmless_ex :
     sync_yield d3 11 2 [("progress", VBool true)] [] [] = (d3, [(11, RInterrupt 2 [("mode", vstr "killnowait")])]) /\
     sync_error d3 12 1 [] "x" [] [] = (d3, []).
 Proof. vm_compute. repeat split; reflexivity. Qed.
-
-(** ** The exception: a refused further chunk keeps the call
-    A further chunk of a progressive call whose procedure has meanwhile
-    disappeared is refused with no_such_procedure although the call stays
-    recorded; the callee's answer then yields a second final reply for the
-    same request id. *)
-Theorem final_reply_consumes_call_refuted :
-    exists cfg lookup now d caller req opts proc args kw oracle d' m,
-      dealer_wf lookup d /\
-      call cfg lookup now d caller req opts proc args kw oracle = CallRefused d' [m] /\
-      reply_of m = Some ((s_id caller, req), true) /\
-      cget (d_calls d') (s_id caller, req) = Some (s_id caller) /\
-      exists callee ireq, snd (sync_yield d' callee ireq [] [] []) = [(s_id caller, RResult req [] [] [])].
-Proof. exact DealerC02.final_reply_consumes_call_refuted. Qed.
-Print Assumptions final_reply_consumes_call_refuted.
